@@ -36,7 +36,7 @@ D9A = "all pool workers blocked reading a partial frame"
 D9B = "accept task blocked inside the authenticator"
 
 BAD_SCRIPTS = ("random", "garbage-brine", "prefix-then-corrupt", "truncated", "badzlib", "hugelen", "connect-close", "auth-wrong", "auth-partial",
-               "auth-silent", "forged-ids", "bad-message", "newline-flood", "zero-length")
+               "auth-silent", "forged-ids", "bad-message", "newline-flood", "zero-length", "auth-flood")
 
 
 NOTIFY_LOG = []
@@ -94,6 +94,7 @@ def run_one(choices, params):
             return sock, None
         if use_auth:
             kw["authenticator"] = magic_word
+        k.fd_limit["srv"] = 40          # far above what 2-8 concurrent clients need
         server, stask, box = SV.start_server(sim, rpyc, kind, service, **kw)
         if server is None:
             raise core.Violation("server-failed-to-start", repr(sim.task_errors))
@@ -243,6 +244,24 @@ def run_one(choices, params):
                 elif script == "auth-wrong":
                     sim.count("c16:auth-failure")
                     so.sendall(b"WRONG")
+                elif script == "auth-flood":
+                    # many failed logins in a row: each rejected connection must be released by the server (its process has a
+                    # descriptor limit like any other)
+                    sim.count("c16:auth-failure")
+                    for _ in range(48 if use_auth else 3):
+                        try:
+                            so.sendall(b"WRONG")
+                            so.settimeout(2.0)
+                            try:
+                                so.recv(16)
+                            except OSError:
+                                pass
+                            so.close()
+                            so = net.SockObj()
+                            so.settimeout(3)
+                            so.connect((SV.SRV_HOST, 18861))
+                        except OSError:
+                            break
                 elif script == "auth-partial":
                     sim.count("c16:auth-failure")
                     so.sendall(b"Ma6")
